@@ -9,7 +9,7 @@ MNext == \/ (NetStep /\ hist' = Append(hist, [t |-> "net", a |-> net.pc]))
          \/ (MinerStep /\ hist' = Append(hist, [t |-> "miner", a |-> miner.pc]))
 MSpec == MInit /\ [][MNext]_mv
 Outcome == [x_on_disk |-> X \in disk, b_on_disk |-> B \in disk, x_served |-> X \in served, b_served |-> B \in served,
-            b_bcast |-> B \in bcast, x_bcast |-> X \in bcast]
+            b_bcast |-> B \in bcast]
 I_Emit == (EmitHist /\ Quiet) => PrintT(ToJson(<< "HIST", hist, Outcome >>))
 View == << served, lastValid, buffer, disk, bcast, net, miner >>
 =============================================================================
